@@ -272,14 +272,10 @@ def plan(tier):
             ([Config(l, z, 'S') for l in langs], [('prng', 3)], 0, 1, 2),
             ([Config(l, z, lim) for l in langs for lim in ('M', 'D')], [('prng', c) for c in range(1, 25)] + ['first', 'alt'], 0, 1, 1),
         ]
-    sw = [(a, b, c, d) for a in (0, 1) for b in (0, 1) for c in (0, 1) for d in (0, 1)]
-    pol = ['first', 'last', 'alt'] + [('prng', c) for c in range(1, 9)]
-    return [
-        ([Config(l, s, 'S', o) for l in langs for s in sw for o in ('asc', 'desc')], pol, 1, 8, 1),
-        ([Config(l, z, 'S') for l in langs], pol, 1, 8, 2),
-        ([Config(l, z, 'M') for l in langs], [('prng', c) for c in range(1, 5)], 1, 16, 1),
-        ([Config(l, z, 'D') for l in langs], [('prng', 1), ('prng', 2)], 1, 32, 1),
-    ]
+    from mc import plans
+    out = [(c, p, b, n, 1) for c, p, b, n in plans.thorough(langs, 'heavy')]
+    out.append(([Config(l, z, 'S') for l in langs], [('prng', 1), ('prng', 2)], 1, 8, 2))
+    return out
 
 
 def run(tier, seed, jobs):
